@@ -18,9 +18,9 @@ PROP = dict(
          "struct construction and field access, enum variants written `.V` and `E.V`, array and "
          "tuple literals, indexing; every import form; variable names drawn from a pool of nine, one of which is also an "
          "imported function's name, so shadowing is the rule; plus 6 hand-written witness programs for the lsp_helper constructs no generated program contains (constraint arguments in parameter annotations, interface definitions with output types, constraints on type parameters of type definitions, struct names in for / let patterns, qualified variant patterns, interface methods and implementations) with listed go-to-definition and hover answers; non-ASCII string literals and comments, task blocks; the D12 / D45 / D60 probe programs are hard regression inputs). Per file: "
-         "two model cases (identifier search, innermost-node search) covering EVERY byte offset 0..=len+2, one case claiming "
-         "the hypotheses of the identifier-search theorem for the parsed file (decided by the proven-sound executable check "
-         "wfB in the model; and the hover-search nesting check); spec checks at "
+         "two model cases (identifier search, innermost-node search) covering EVERY byte offset 0..=len+2, two cases claiming "
+         "the hypotheses of the identifier-search theorem and of the hover-search theorem for the parsed file (decided by the proven-sound "
+         "executable checks wfB and nestedIB in the model); spec checks at "
          "every byte offset: definition_at on a use = the generator's innermost visible declaration (file, range, text), "
          "definition_at outside identifiers = nothing, type_at on every typed position = the generator's type; agreement: at every "
          "offset where the hover search lands on an identifier expression the go-to-definition search lands on the same node. "
@@ -33,16 +33,20 @@ PROP = dict(
         "types only (no Lean model of the checker; C21 has the model of name lookup)",
     ],
     assumptions=[
-        "ExprKind::TaskBlock is modelled as repaired by D45 (5b44d4b: the searches descend into the task body); if the start-up probe ever fails again "
-        "task blocks stay out of the generated stream (the start-up probe reports it)",
+        "ExprKind::TaskBlock is modelled as repaired by D45 (5b44d4b: the searches descend into the task body); task blocks are always in "
+        "the generated stream and the D45 / D12 / D60 probe programs are hard regression inputs (a failure is a spec failure, nothing is gated)",
         "hover inside match-arm patterns and on `.Variant` callees is not constrained (the implementation reports no type there)",
     ],
     design_ref="DESIGN.md §6 C35",
     level_text="Theorems for all search trees and all offsets about a model of lsp_helper.rs's two AST searches: on a tree "
-               "whose identifier spans are pairwise disjoint and nested in their parents the identifier search returns exactly "
-               "the identifier containing the offset and nothing otherwise; unconditionally, whatever it returns is an identifier "
-               "of the tree containing the offset; the innermost-node search returns a node that contains the offset while no node "
-               "below it does, and answers exactly when some node contains the offset; past the end both answer nothing. The walk "
+               "whose identifier spans are pairwise disjoint (Unique), lie inside the spans of the nodes above them (Nested) and whose "
+               "match arms do not overlap the identifiers of later siblings (CutOK) the identifier search returns exactly the identifier "
+               "containing the offset and nothing otherwise; without any hypothesis, whatever it returns is an identifier of the tree "
+               "containing the offset; on a tree whose candidate nodes are nested in their parents (NestedI) the innermost-node search "
+               "returns a node that contains the offset while no node below it does, and answers exactly when some node contains the "
+               "offset; without that hypothesis the same holds with 'contains' read as 'its own span and the spans of all nodes above it "
+               "contain the offset' (C35_searchI_spec_unconditional); if every identifier / candidate span ends at or before n, both "
+               "searches answer nothing at every offset >= n (the hover version under NestedI). The walk "
                "order of the code (which children, in which order, behind which span test) is in the Lean model and is compared "
                "with the real searches at every byte offset of every generated file.",
     level_note="partial: that the resolution map holds the innermost visible declaration, that declaration_location returns the "
@@ -50,8 +54,9 @@ PROP = dict(
                "typing (spec_fail), not proved; the hypotheses Nested/CutOK/Unique of the identifier-search theorem are "
                "properties of parser output: they are not proved for the parser but decided for every file of every run by an "
                "executable check whose soundness is a theorem (C35_search_spec_checked); the nesting hypothesis of the hover search "
-               "is false on parser output as long as D60 (function body block span starts at a token index) stands, which is why the "
-               "hover-search theorem is also proved without it (C35_searchI_spec_unconditional). A bare model mismatch is reported as "
+               "(NestedI) was false on parser output until D60 (function body block span started at a token index, fixed e25c64a) and D106 "
+               "(qualified variant pattern span excluded its qualifier, fixed f9af9cf) were repaired; it is now claimed and decided for every "
+               "file as well (`spantree wfi`), and the hover-search theorem is also proved without it (C35_searchI_spec_unconditional). A bare model mismatch is reported as "
                "no-failing-input-found (node ids are more than the property fixes); a wrong declaration or type is a concrete input.",
     technique="Lean 4 theorems (mutual structural induction over nested search trees) about a hand-written model + differential "
               "correspondence against the real LSP analysis at every byte offset + independent scope/type oracle in the generator",
